@@ -277,22 +277,27 @@ type treeFacts struct {
 	bytesValues   int
 	optionalUnset bool
 	emptyBytesVal bool // a pcommon.Value of type Bytes with zero bytes (listed finding)
+	maxDepth      int  // deepest message nesting
 }
 
 var canonicalNaN = math.Float64bits(math.NaN())
 
 func factsOf(tree any) *treeFacts {
 	f := &treeFacts{oneofs: map[string]bool{}}
-	f.walk(tree)
+	f.walk(tree, 0)
 	return f
 }
 
-func (f *treeFacts) walk(a any) {
+func (f *treeFacts) walk(a any, depth int) {
 	switch x := a.(type) {
 	case nil:
 		f.optionalUnset = true
 	case *pview.Node:
 		f.nodes++
+		depth++
+		if depth > f.maxDepth {
+			f.maxDepth = depth
+		}
 		if x.Type == "pcommon.Value" && len(x.Fields) == 2 && x.Fields[0].Val == "Bytes" && x.Fields[1].Val == pview.B("") {
 			f.emptyBytesVal = true
 		}
@@ -303,18 +308,18 @@ func (f *treeFacts) walk(a any) {
 					f.oneofs[x.Type+":"+s] = true
 				}
 			}
-			f.walk(fl.Val)
+			f.walk(fl.Val, depth)
 		}
 	case []any:
 		if len(x) == 0 {
 			f.emptyCont = true
 		}
 		for _, e := range x {
-			f.walk(e)
+			f.walk(e, depth)
 		}
 	case pview.KV:
 		f.str(x.Key)
-		f.walk(x.Val)
+		f.walk(x.Val, depth)
 	case pview.F:
 		v := math.Float64frombits(x.Bits)
 		switch {
